@@ -1,9 +1,56 @@
 """supervisor.events: every EventTypes member with its ancestor-or-self chain among the members (this is the
 subscription semantics of notify(): isinstance), its abstract flag (class docstring/comment convention is not
-machine readable, so: has registered proper descendants), and the registry order."""
+machine readable, so: has registered proper descendants), and the registry order.
+
+Independent of the code: the *documented* type hierarchy.  docs/events.rst has one "``X`` Event Type" section per
+event type with a line "*Subtype Of*: ``Y``" (or N/A).  That table is emitted as `documented`; Props/C09 proves that
+the registered types and their ancestor chains are exactly the documented ones, so a class that silently gains or
+loses a base class (and with it subscribers) breaks a proof, and the monitors decide "subscribed" from this table
+(`documented_hierarchy`), never from issubclass."""
+import os, re
 LEAN_MODULE = 'Events'
 IMPORTS = []
 OPENS = []
+
+_HEAD = re.compile(r'^``([A-Z][A-Z_0-9]*)`` Event Type\s*$')
+_SUB = re.compile(r'^\*Subtype Of\*:\s*(?:``([A-Z][A-Z_0-9]*)``|N/A)\s*$')
+
+
+def documented_hierarchy(repo=None):
+    """[(type name, documented parent name or None)] in document order, read from docs/events.rst of the tree under
+    verification.  Raises ValueError when a type section has no (or more than one) *Subtype Of* line."""
+    if repo is None:
+        repo = os.environ.get('VERIF_REPO', '/repo')
+    lines = open(os.path.join(repo, 'docs', 'events.rst'), encoding='utf-8').read().split('\n')
+    res, cur = [], None
+    for i, l in enumerate(lines):
+        m = _HEAD.match(l)
+        if m and i + 1 < len(lines) and set(lines[i + 1].strip()) == {'~'}:
+            if cur is not None and len(cur[1]) != 1:
+                raise ValueError('docs/events.rst: section %s has %d "Subtype Of" lines' % (cur[0], len(cur[1])))
+            cur = (m.group(1), [])
+            res.append(cur)
+            continue
+        m = _SUB.match(l.strip())
+        if m and cur is not None:
+            cur[1].append(m.group(1))
+    if cur is not None and len(cur[1]) != 1:
+        raise ValueError('docs/events.rst: section %s has %d "Subtype Of" lines' % (cur[0], len(cur[1])))
+    if not res:
+        raise ValueError('docs/events.rst: no event type sections found')
+    return [(n, ps[0]) for n, ps in res]
+
+
+def documented_chain(table, name):
+    """name and its documented supertypes, nearest first (None when the name is not documented)"""
+    d = dict(table)
+    if name not in d:
+        return None
+    out = []
+    while name is not None and name not in out:
+        out.append(name)
+        name = d.get(name)
+    return out
 
 
 def TABLES():
@@ -31,4 +78,8 @@ def TABLES():
         out.append('  | .%s => %s' % (k, 'true' if ab else 'false'))
     out.append('-- EventRejectedEvent is deliberately not an Event: isinstance(EventRejectedEvent(...), Event)')
     out.append('def rejectedIsEvent : Bool := %s' % ('true' if issubclass(events.EventRejectedEvent, events.Event) else 'false'))
+    doc = documented_hierarchy()
+    out.append('-- docs/events.rst: every "``X`` Event Type" section with its "*Subtype Of*" line (document order)')
+    out.append('def documented : List (String × Option String) := [%s]' % ', '.join(
+        '("%s", %s)' % (n, 'some "%s"' % p if p else 'none') for n, p in doc))
     return out
